@@ -570,7 +570,7 @@ def configs(tier):
             if op not in ("forward", "inverse") and shape != shapes_a[0]:
                 continue
             cfgs.append({"cls": "ActNorm", "training": training, "initialized": initialized, "op": op, "shape": list(shape), "timeout": t})
-    L = 3 if tier == "quick" else 4
+    L = 3 if tier == "quick" else 5
     for n in range(2, L + 1):
         for ops in itertools.product(("train", "eval", "forward", "inverse"), repeat=n):
             if "forward" not in ops or ops[-1] in ("train", "eval"):
